@@ -752,7 +752,7 @@ mod pipeline {
 
     use crate::communicate::{self, Communicator};
     use crate::os_common::ExitStatus;
-    use crate::popen::{Popen, Redirection, Result as PopenResult};
+    use crate::popen::{Popen, PopenError, Redirection, Result as PopenResult};
 
     use super::exec::{CaptureData, Exec, InputRedirection, OutputRedirection};
 
@@ -944,8 +944,22 @@ mod pipeline {
         /// to missing output), except for the ones for which
         /// `detached()` was called.  This is equivalent to what the
         /// shell does.
-        pub fn popen(mut self) -> PopenResult<Vec<Popen>> {
+        pub fn popen(self) -> PopenResult<Vec<Popen>> {
             self.check_no_stdin_data("popen");
+            match self.start() {
+                Ok(started) => Ok(started),
+                Err((err, started)) => {
+                    // dropping the commands started so far waits for them
+                    drop(started);
+                    Err(err)
+                }
+            }
+        }
+
+        // Starts the commands.  If one of them fails to start, returns the
+        // error together with the commands started before it, which have not
+        // been waited for yet.
+        fn start(mut self) -> Result<Vec<Popen>, (PopenError, Vec<Popen>)> {
             assert!(self.cmds.len() >= 2);
 
             if let Some(stderr_to) = self.stderr_file {
@@ -974,7 +988,10 @@ mod pipeline {
                 if idx != cnt - 1 {
                     runner = runner.stdout(Redirection::Pipe);
                 }
-                ret.push(runner.popen()?);
+                match runner.popen() {
+                    Ok(popen) => ret.push(popen),
+                    Err(err) => return Err((err, ret)),
+                }
             }
             Ok(ret)
         }
@@ -1031,7 +1048,17 @@ mod pipeline {
             self = self.stderr_to(err_write);
 
             let stdin_data = self.stdin_data.take();
-            let mut v = self.stdout(Redirection::Pipe).popen()?;
+            let mut v = match self.stdout(Redirection::Pipe).start() {
+                Ok(started) => started,
+                Err((err, started)) => {
+                    // Close our end of the stderr pipe before waiting for
+                    // the commands started so far: one that is blocked
+                    // writing to it would never exit.
+                    drop(err_read);
+                    drop(started);
+                    return Err(err);
+                }
+            };
             let vlen = v.len();
 
             let comm = communicate::communicate(
